@@ -89,6 +89,7 @@ class Harness:
                           "alleles": len(gene.alleles)}
         self.seen_profile = {k: v for k, v in profile.__dict__.items()
                              if k not in ("name", "data", "cn_region", "neutral_value")}
+        self.seen_profile["(gene) copy-number calling"] = gene.do_copy_number
         out = []
         for i, names in enumerate(self.plan["cn"]):
             s = CNSolution(gene, self.score("cn", i), list(names))
